@@ -51,6 +51,7 @@ class DBusClientConnection (txdbus.protocol.BasicDBusProtocol):
     authenticator = authentication.ClientAuthenticator
 
     busName = None
+    _lostReason = None
 
     def connectionAuthenticated(self):
         """
@@ -102,6 +103,9 @@ class DBusClientConnection (txdbus.protocol.BasicDBusProtocol):
             return
 
         established = self.busName is not None
+
+        # from here on a new call can get no reply: callRemoteMessage fails it
+        self._lostReason = reason
 
         if established:
             # iterate a copy: a callback may unregister itself
@@ -592,6 +596,11 @@ class DBusClientConnection (txdbus.protocol.BasicDBusProtocol):
         assert isinstance(mcall, message.MethodCallMessage)
 
         if mcall.expectReply:
+            if self._lostReason is not None:
+                # issued after the connection was lost (e.g. from an errback
+                # or a disconnect callback): it would stay pending for ever
+                return defer.fail(self._lostReason)
+
             d = defer.Deferred()
 
             if timeout:
